@@ -20,7 +20,7 @@ pub fn def() -> PropDef {
     PropDef {
         id: "C12",
         level: "exploration",
-        profiles: &["checked"],
+        profiles: &["checked", "fast"],
         abort_is_violation: true,
         rule: "well-formed AIGs: generated numbers of inputs/latches/gates, a random permutation of variable \
                indices with gaps, shuffled gate order, inputs with random negations, constants and x/!x/x,x pairs as \
@@ -637,15 +637,17 @@ fn inject(mut a: AigOwned, defect: u8, picks: &[u32]) -> (AigOwned, String) {
             let some_gate = a.ands.first().map(|g| g.0.unwrap());
             let some_latch = a.latches.first().map(|l| l.0.unwrap());
             let fresh_gate = |a: &mut AigOwned, out: u64| a.ands.push((Some(out), 1, 1));
+            // the second definition uses the same or the complemented literal
+            let c = pick(2);
             match kind {
-                0 if some_input.is_some() => a.inputs.push(some_input.unwrap() ^ pick(2)),
-                1 if some_input.is_some() => fresh_gate(&mut a, some_input.unwrap()),
-                2 if some_gate.is_some() => fresh_gate(&mut a, some_gate.unwrap()),
-                3 if some_latch.is_some() => a.inputs.push(some_latch.unwrap()),
-                4 if some_latch.is_some() => fresh_gate(&mut a, some_latch.unwrap()),
-                5 if some_latch.is_some() => a.latches.push((some_latch, 0, Some(false))),
+                0 if some_input.is_some() => a.inputs.push(some_input.unwrap() ^ c),
+                1 if some_input.is_some() => fresh_gate(&mut a, some_input.unwrap() ^ c),
+                2 if some_gate.is_some() => fresh_gate(&mut a, some_gate.unwrap() ^ c),
+                3 if some_latch.is_some() => a.inputs.push(some_latch.unwrap() ^ c),
+                4 if some_latch.is_some() => fresh_gate(&mut a, some_latch.unwrap() ^ c),
+                5 if some_latch.is_some() => a.latches.push((some_latch.map(|l| l ^ c), 0, Some(false))),
                 6 => a.inputs.push(pick(2)),
-                7 if some_gate.is_some() => a.latches.push((some_gate, 1, None)),
+                7 if some_gate.is_some() => a.latches.push((some_gate.map(|g| g ^ c), 1, None)),
                 _ => {
                     if let Some(i) = some_input {
                         a.latches.push((Some(i), 0, Some(false)));
